@@ -146,6 +146,10 @@ func accept(key int64, c acase, variant int) aobs {
 	}
 	exp := time.Now().Unix() + c.Off
 	prefix := prefixOf(diff, exp, stampSubj, nonce(r))
+	if c.Off == -100000000 { // a stamp without any expiry: the field is empty
+		prefix = strings.Join([]string{"H", strconv.Itoa(diff), "", stampSubj, nonce(r), "SHA-256"}, ":")
+		how = append(how, "no-expiry")
+	}
 	var stamp string
 	var ctr uint32
 	if c.Zeros {
